@@ -38,6 +38,53 @@ def _ext(node, which):
     return None
 
 
+def r7_conversions(ctx):
+    """Accumulation of duplicates happens in scipy's constructors ((data, (row, col)) triplets are summed on conversion).
+    Every to<format> method must therefore derive its result from self.tosparse / another to* method; a dense array filled by
+    fancy indexing `A[row, col] += data` keeps only the last duplicate (numpy buffers fancy-index updates)."""
+    rep = ctx.rep
+    cls = ctx.model.cls("CooMatrix", COO)
+    trip = {"self.data", "self.row", "self.col", "self._CooMatrix__data", "self._CooMatrix__row", "self._CooMatrix__col"}
+    for name, fn in sorted(cls.methods.items()):
+        if not name.startswith("to"):
+            continue
+        C = f"{COO}:CooMatrix.{name}"
+        rets = [n for n in walk_no_nested(fn) if isinstance(n, ast.Return) and n.value is not None]
+        bad = None
+        for r in rets:
+            v = r.value
+            # strip trailing method calls:  self.tocoo(copy).toarray()  ->  self.tocoo(copy)
+            inner = v
+            while isinstance(inner, ast.Call) and isinstance(inner.func, ast.Attribute) and isinstance(inner.func.value, ast.Call):
+                inner = inner.func.value
+            ok = False
+            if isinstance(inner, ast.Call):
+                d = dotted(inner.func) or ""
+                if d.startswith("self.to"):
+                    ok = True
+                elif inner.args and isinstance(inner.args[0], ast.Tuple) and len(inner.args[0].elts) == 2 and isinstance(inner.args[0].elts[1], ast.Tuple):
+                    # constructor((data, (row, col)), shape=...)
+                    names = {norm_src(x) for x in [inner.args[0].elts[0]] + list(inner.args[0].elts[1].elts)}
+                    ok = names <= trip and len(names) == 3
+            if not ok:
+                bad = r
+        if bad is not None:
+            rep.bad("C15.R7", C, bad, f"`{name}` does not build its result from the (data, (row, col)) triplets through a scipy sparse constructor / another to* conversion: "
+                    f"duplicates are only summed there", f"{COO}:{bad.lineno}")
+        elif rets:
+            rep.ok("C15.R7", C, f"{norm_src(rets[0])[:100]}")
+    # numpy pitfall: fancy-index augmented assignment with the triplet index arrays does not accumulate duplicates
+    n = 0
+    for fname, fn in sorted(cls.methods.items()):
+        for a in walk_no_nested(fn):
+            if isinstance(a, ast.AugAssign) and isinstance(a.target, ast.Subscript):
+                idx = norm_src(a.target.slice)
+                if any(t.split(".")[-1] in idx for t in ("self.row", "self.col")) or "__row" in idx or "__col" in idx:
+                    n += 1
+                    rep.bad("C15.R7", f"{COO}:CooMatrix.{fname}", a, "augmented assignment through the (row, col) index arrays: numpy applies a fancy-index `+=` once per distinct "
+                            "index, so contributions that hit the same entry are lost instead of summed (np.add.at or a sparse constructor is required)", f"{COO}:{a.lineno}")
+
+
 def run(ctx):
     rep = ctx.rep
     rep.rule("C15.R1", "data/row/col extended in lockstep on every path of __setitem__", 4)
@@ -46,6 +93,8 @@ def run(ctx):
     rep.rule("C15.R4", "axis / ordering / constructor pairing", 8)
     rep.rule("C15.R5", "format strings resolve to to* methods", 3)
     rep.rule("C15.R6", "property accessors use the matching field", 6)
+    rep.rule("C15.R7", "every conversion hands the triplets to a duplicate-summing sparse constructor", 4)
+    r7_conversions(ctx)
     cls = ctx.model.cls("CooMatrix", COO)
     fn = cls.methods.get("__setitem__")
     if fn is None:
@@ -300,6 +349,12 @@ MUTANTS = [
          new='                value = atleast_2d(value)\n                assert value.shape == (len(cols), len(rows)), "inconsistent assignment"\n', expect="C15.R2"),
     dict(id="c15-m11", what="row getter returns the col array", file=COO,
          old="    def row(self):\n        return self.__row", new="    def row(self):\n        return self.__col", expect="C15.R6"),
+]
+MUTANTS += [
+    dict(id="c15-seed", canary=True, what="[seeded by sub-agent] CooMatrix.toarray fills a dense array with A[row, col] += data (duplicates lost)", file=COO,
+         old="        return self.tocoo(copy).toarray()\n", new="        import numpy as _np\n        A = _np.zeros(self.shape, dtype=float)\n        A[_np.asarray(self.row, dtype=int), _np.asarray(self.col, dtype=int)] += self.data\n        return A\n", expect="C15.R7"),
+    dict(id="c15-r7-2", what="tocsr built from a dict of keys (last write wins)", file=COO,
+         old="        return self.tosparse(csr_array, copy=copy)", new="        return csr_array(dict(zip(zip(self.row, self.col), self.data)))", expect="C15.R7"),
 ]
 NEUTRAL = [
     dict(id="c15-n1", canary=True, what="assert rewritten with a different message", file=COO,
